@@ -204,13 +204,13 @@ Definition unpack_list (l : list bof) (n : nat) : option ublist :=
                                end) l).
 
 (** UserBoundsList::complement.
-    An unresolvable bound contributes nothing (the iterator drops the error).
-    [inl false] = "the complement is empty" error. *)
+    An unresolvable bound is kept as it is: the output loop then prints its fallback in
+    its place or fails the record, as without --complement (C13). *)
 Definition complement_items (l : list bof) (n : nat) : list bof :=
   flat_map (fun x => match x with
                      | Bound b => match complement_bound b n with
                                   | Some bs => map Bound bs
-                                  | None => []
+                                  | None => [Bound b]
                                   end
                      | Filler f => [Filler f]
                      end) l.
